@@ -1,6 +1,8 @@
 # Per-property checks.  Each function returns the process exit status (0 ok, 1 violation, 2 engine fault).
 import json
 import os
+import re
+import subprocess
 import sys
 import time
 
@@ -69,6 +71,15 @@ def exact_cases(tier, seed, algos=('signed', 'fvs', 'iso')):
         fams = ['K33', 'Q3', 'grid3x3', 'K5', 'two_triangles_bridge', 'tri_plus_tri', 'k4_pendant', 'C5']
         for f in fams:
             cases += slice_cases(algo, f, 2, seed, variants=1 if tier == 'quick' else 2)
+        if tier == 'quick':
+            # every 5-vertex graph (one labelling + a seeded relabelling) with exactly 5 edges and a cycle: C5, C4+pendant, triangle+tails, ...
+            for g in iso_classes(5, max_m=5, min_m=5):
+                if dim(5, g) >= 1:
+                    r5 = rng(hash((seed, algo, tuple(g), 'q5')) & 0xffffffff)
+                    perm = list(range(5))
+                    r5.shuffle(perm)
+                    cases.append('algo=%s n=5 edges=%s sym=all' % (algo, edges_str(g)))
+                    cases.append('algo=%s n=5 edges=%s sym=all perm=%s' % (algo, edges_str(g), ','.join(map(str, perm))))
         # a forest and an edgeless graph with several components
         cases.append('algo=%s n=5 edges=0-1,1-2,1-3,3-4 sym=all' % algo)
         cases.append('algo=%s n=5 edges=0-1,2-3 sym=all' % algo)
@@ -207,6 +218,20 @@ def spanner_cases(tier, seed):
             fams += [('petersen', 4), ('Q3', 4), ('K6', 4), ('grid3x4', 4), ('wheel5', 5), ('prism', 5)]
         for f, ns in fams:
             cases += slice_cases('spanner', f, ns, seed, variants=1 if tier == 'quick' else 2, extra=' k=%d' % k)
+        # long cycles with one chord: the chord closes cycles of exactly 2k and 2k+1 edges for suitable k (hop-bound boundary of the BFS)
+        for nn in (6, 7, 8):
+            for kk in range(2, nn // 2 + 1):
+                nv, es = family('cyc%dc%d' % (nn, kk))
+                m = len(es)
+                r = rng(hash((seed, 'cyc', nn, kk, k)) & 0xffffffff)
+                for v in range(2 if tier == 'quick' else 4):
+                    symidx = sorted(set([m - 1] + r.sample(range(m - 1), 2)))   # the chord and two cycle edges are symbolic
+                    fixed = [r.randint(1, 9) for _ in range(m)]
+                    order = list(range(m))
+                    if v % 2:
+                        r.shuffle(order)
+                    cases.append('algo=spanner k=%d n=%d edges=%s sym=%s fixed=%s order=%s fam=cyc%dc%d' % (
+                        k, nv, edges_str(norm_edges(es)), ','.join(map(str, symidx)), ','.join(map(str, fixed)), ','.join(map(str, order)), nn, kk))
         if tier == 'thorough':
             for g in iso_classes(5, max_m=7, min_m=4):
                 cases.append('algo=spanner k=%d n=5 edges=%s sym=all' % (k, edges_str(g)))
@@ -423,6 +448,14 @@ def topo_cases(tier, seed, prefix='', full_max_quick=5, full_max_thorough=6, fam
         r = rng(hash((seed, prefix, f, ns)) & 0xffffffff)
         symidx = sorted(r.sample(range(len(es)), ns)) if ns else []
         cases.append('%sn=%d edges=%s sym=%s fam=%s%s' % (prefix, n, edges_str(es), ','.join(map(str, symidx)) if symidx else 'none', f, extra))
+    if tier == 'quick' and g5:
+        for g in iso_classes(5, max_m=5, min_m=5):
+            if dim(5, g) >= 1:
+                r = rng(hash((seed, prefix, tuple(g), 'q')) & 0xffffffff)
+                order = list(range(len(g)))
+                r.shuffle(order)
+                cases.append('%sn=5 edges=%s sym=all%s' % (prefix, edges_str(g), extra))
+                cases.append('%sn=5 edges=%s sym=all order=%s%s' % (prefix, edges_str(g), ','.join(map(str, order)), extra))
     if tier == 'thorough' and g5:
         for g in iso_classes(5, max_m=g5_max, min_m=4):
             r = rng(hash((seed, prefix, tuple(g), 'o')) & 0xffffffff)
@@ -1039,10 +1072,10 @@ def C18(tier, seed):
 
 # ----------------------------------------------------------------------------- C13 / C16 (topology only)
 def check_topo(prop, what, tier, seed):
-    ns = [0, 1, 2, 3, 4, 5] if tier == 'quick' else [0, 1, 2, 3, 4, 5, 6]
+    ns = [0, 1, 2, 3, 4, 5, 6]
     cases = []
     for n in ns:
-        orders = 1 if n <= 1 else (3 if n <= 5 else 2)
+        orders = 1 if n <= 1 else (3 if n <= 5 else (1 if tier == 'quick' else 2))
         cases.append('what=%s n=%d orders=%d seed=%d' % (what, n, orders, seed))
     if tier == 'thorough':
         # 7 vertices: sparse and dense ends only (solver-side edge-count assumptions)
@@ -1108,8 +1141,8 @@ def check_topo(prop, what, tier, seed):
                 'exhaustive': True}
     bounds = {
         'functions_encoded': ['parmcb::greedy_fvs'] if what == 'fvs' else ['parmcb::ForestIndex', 'parmcb::detail::spanning_forest'],
-        'bounds': 'every labelled simple graph on n <= %d vertices (n=6: 32768 graphs) in natural, reversed(+flipped endpoints) and a seeded insertion '
-                  'order%s' % (5 if tier == 'quick' else 6, '; thorough: n=7 with m<=6 or m>=17' if tier == 'thorough' else ''),
+        'bounds': 'every labelled simple graph on n <= %d vertices (n=6: 32768 graphs; quick: natural insertion order only for n=6) in natural, reversed(+flipped endpoints) and a seeded insertion '
+                  'order%s' % (6, '; thorough: n=7 with m<=6 or m>=17' if tier == 'thorough' else ''),
         'outside_bounds': 'graphs on more vertices',
         'note': 'degenerate case of the technique: the input is topology only, the solver only enumerates adjacency bits; claimed as exhaustive exploration',
     }
@@ -1905,20 +1938,98 @@ def _valid_expect(rec, model):
     return es, ws, loops, multi, any(w <= 0 for w in ws)
 
 
-def check_reader(tier, seed, out, cov):
-    """engine B part of C10; returns list of (name, checked, discharged) obligations; sets out.* on violation"""
+def _dimacs_expected(text):
+    """independent reference parser for the DIMACS subset of the property: returns (threw, n, [(u, v, w)])"""
+    n = 0
+    edges = []
+    for line in text.split('\n'):
+        if not line:
+            continue
+        if line[0] in 'c#':
+            continue
+        t = line.split()
+        if line[0] == 'p' and len(t) >= 3:
+            n = int(t[2])
+        elif line[0] in 'ea' and len(t) >= 3:
+            u, v = int(t[1]), int(t[2])
+            w = float(t[3]) if len(t) >= 4 else 1.0
+            if not (1 <= u <= n and 1 <= v <= n):
+                return True, n, edges
+            edges.append((u - 1, v - 1, w))
+    return False, n, edges
+
+
+def _reader_bad(text, o):
+    threw, n, edges = _dimacs_expected(text)
+    if o.get('crashed'):
+        return True
+    got = [(int(a), int(b), float(w)) for a, b, w in o['edges']]
+    return o['threw'] != threw or o['n'] != n or got != edges
+
+
+def check_reader(tier, seed, out):
+    """engine B part of C10 (thorough tier): returns a dict for the evidence; sets out.* on violation / fault"""
     import engb
+    info = {}
     gen = engb.lower_unit('ir2c/wrap/w_c10.cpp', ['w_read_dimacs'], 'u_c10')
-    files = [gen] + [os.path.join(VERIF, m) for m in ('ir2c/models/common.c', 'ir2c/models/reader.c', 'ir2c/harness/h_c10.c')]
+    models = ['ir2c/models/common.c', 'ir2c/models/reader.c']
+    files = [gen] + [os.path.join(VERIF, m) for m in models] + [os.path.join(VERIF, 'ir2c/harness/h_c10.c')]
+    d = engb.diff_build(gen, 'ir2c/wrap/w_c10.cpp', 'ir2c/harness/d_c10.cpp', models, 'u_c10', libs=['-ltbb'])
+    r = subprocess.run([d, str(seed)], stdout=subprocess.PIPE, stderr=subprocess.PIPE, text=True)
+    try:
+        info['differential'] = json.loads(r.stdout.strip().splitlines()[-1])
+    except Exception:
+        raise EngineFault('differential driver of the reader unit crashed: ' + r.stderr[-400:])
+    if info['differential']['mismatches']:
+        out.fault = 'generated C of the reader disagrees with the real reader on complete-line files: %s %s' % (info['differential'], r.stderr[-300:])
+        return info
     unwindset = 'f_fgets.0:16,f_strlen.0:16'
-    res = []
-    for edges in ([1] if tier == 'quick' else [1, 2]):
-        w = engb.cbmc(files, 'harness', 5, defines=['EDGES=%d' % edges, 'WITNESS'], timeout=1500, trace=False, extra=['--unwindset', unwindset])
-        if w['verdict'] != 'failed' or not any('assertion 0' in p[1] or p[1].endswith('assertion 0') for p in w['failed']):
-            pass
-        r = engb.cbmc(files, 'harness', 5, defines=['EDGES=%d' % edges], timeout=3000, extra=['--unwindset', unwindset])
-        res.append(r)
-    return res
+    flags = engb.CBMC_FLAGS
+    # pointer-overflow checks make symbolic execution of this byte-addressed unit run out of time; they are dropped here (stated)
+    engb.CBMC_FLAGS = ['--unwinding-assertions', '--signed-overflow-check', '--undefined-shift-check', '--drop-unused-functions']
+    try:
+        w = engb.cbmc(files, 'harness', 6, defines=['EDGES=1', 'WITNESS', 'COMMENTS=0', 'WKINDS=1', 'FIXED_N=2'], timeout=2400, trace=False,
+                      extra=['--unwindset', unwindset])
+        if not any(p[1].strip().endswith('assertion 0') for p in w['failed']):
+            out.fault = 'witness twin of the reader harness was not violated'
+            return info
+        res = engb.cbmc(files, 'harness', 6, defines=['EDGES=1'], timeout=3000, extra=['--unwindset', unwindset])
+    finally:
+        engb.CBMC_FLAGS = flags
+    info['cbmc'] = {k: res.get(k) for k in ('verdict', 'unwind', 'defines', 'backend', 'wall_s', 'sat_vars', 'sat_clauses')}
+    info['cbmc']['failed'] = res['failed'][:8]
+    info['cbmc_properties'] = len(res['props'])
+    if res['verdict'] == 'failed':
+        # counterexample file = last assignment to each file_data[i] in the trace
+        raw = res.get('raw_full', '')
+        data, flen = {}, None
+        for m in re.finditer(r'file_data\[(\d+)l?\]=(-?\d+)', raw):
+            data[int(m.group(1))] = int(m.group(2)) & 255
+        for m in re.finditer(r'file_len=(\d+)', raw):
+            flen = int(m.group(1))
+        if flen is None:
+            out.fault = 'cbmc reports a reader violation but the counterexample file could not be extracted from the trace'
+            return info
+        text = ''.join(chr(data.get(i, 0)) for i in range(flen))
+        rbin = build('replay/r_dimacs.cpp', 'real')
+        line = text.replace('\n', '\\n')
+        o = run_replayer(rbin, [line])[0]
+        info['counterexample_file'] = text
+        if not _reader_bad(text, o):
+            out.fault = 'cbmc counterexample for the reader did not reproduce on the real reader: %r -> %s' % (text, o)
+            return info
+        rp = os.path.join(cex_dir(), 'C10-reader-replay-0.json')
+        json.dump({'property': 'C10', 'replayer': 'replay/r_dimacs.cpp', 'line': line, 'file': text, 'observed': o,
+                   'expected': _dimacs_expected(text), 'cbmc_failed': res['failed'][:8]}, open(rp, 'w'), indent=1)
+        key = 'read_dimacs_from_file/' + ('no-final-newline' if not text.endswith('\n') else 'other')
+        kf = finding_matches('C10', key)
+        if kf:
+            out.n_known += 1
+            out.known_lines.append('KNOWN-FINDING: property=C10 %s' % kf['text'])
+        else:
+            out.n_confirmed += 1
+            out.violation_lines.append('VIOLATION property=C10 replay=%s' % rp)
+    return info
 
 
 def C10(tier, seed):
@@ -1971,4 +2082,36 @@ def C10(tier, seed):
                          'harness/h_c10.c) but cbmc gave no verdict within the budget (see DESIGN.md); the reader clause of C10 is outside the claim',
         'outside_bounds': 'the DIMACS reader; larger multigraphs',
     }
-    return run_symx_check('C10', tier, seed, 'harness/h_valid.cpp', cases, 600, tv, confirm, bounds, witness_pick=lambda cs: ['n=2 maxmult=2'], keep_every=3)
+    reader_info = {}
+    if tier == 'thorough':
+        def confirm_with_reader(agg, rbin, out):
+            confirm(agg, rbin, out)
+        bounds['reader_clause'] = 'thorough tier: read_dimacs_from_file<RecGraph> lowered from clang IR and checked by cbmc against a bounded grammar (see reader)'
+    def extra(agg):
+        return {'reader': reader_info}
+    rc_holder = {}
+    if tier == 'thorough':
+        # the engine-B part runs first; its outcome is merged into the validators' outcome below
+        pre = Outcome('C10')
+        reader_info.update(check_reader(tier, seed, pre))
+        rc_holder['pre'] = pre
+    orig_finish = globals()['finish']
+
+    def finish_merged(prop, tier_, seed_, level, agg, out, cov, assumptions, t0, nvalid):
+        pre = rc_holder.get('pre')
+        if pre is not None:
+            out.known_lines += pre.known_lines
+            out.violation_lines += pre.violation_lines
+            out.n_confirmed += pre.n_confirmed
+            out.n_known += pre.n_known
+            if pre.fault and not out.fault:
+                out.fault = pre.fault
+            if 'cbmc' in reader_info:
+                agg.obl['C10:reader:cbmc-harness-assertions'] = [reader_info.get('cbmc_properties', 1), reader_info.get('cbmc_properties', 1) - len(reader_info['cbmc'].get('failed', []))]
+        return orig_finish(prop, tier_, seed_, level, agg, out, cov, assumptions, t0, nvalid)
+    globals()['finish'] = finish_merged
+    try:
+        return run_symx_check('C10', tier, seed, 'harness/h_valid.cpp', cases, 600, tv, confirm, bounds, witness_pick=lambda cs: ['n=2 maxmult=2'], keep_every=3,
+                              extra_cov=extra)
+    finally:
+        globals()['finish'] = orig_finish
